@@ -9,13 +9,17 @@
 // except according to those terms.
 
 use crate::sinks::core::{MetricSink, SinkStats};
-use crossbeam_channel::{self, Receiver, Sender, TrySendError};
+use crossbeam_channel::{self, Receiver, RecvTimeoutError, Sender, TrySendError};
 use std::fmt;
 use std::io::{self, ErrorKind};
 use std::panic::RefUnwindSafe;
 use std::sync::atomic::{AtomicBool, AtomicU64, Ordering};
 use std::sync::Arc;
 use std::thread;
+use std::time::Duration;
+
+/// How often the worker of a zero-capacity queue re-checks for a stop request.
+const STOP_POLL_INTERVAL: Duration = Duration::from_millis(100);
 
 /// Implementation of a builder pattern for `QueuingMetricSink`.
 ///
@@ -467,8 +471,23 @@ impl Worker {
         // Keep going until the poison pill arrives or, if it could not be queued
         // because the channel was full, until a stop was requested and everything
         // queued before it has been processed.
+        //
+        // A zero-capacity (rendezvous) channel can never hold the pill: it is only
+        // handed over if this thread happens to be waiting in `recv()` at that very
+        // moment. Wake up periodically in that case so the stop request is always
+        // noticed.
+        let rendezvous = self.sender.capacity() == Some(0);
         while !(self.stop_requested.load(Ordering::Acquire) && self.receiver.is_empty()) {
-            if let Ok(Some(v)) = self.receiver.recv() {
+            let next = if rendezvous {
+                match self.receiver.recv_timeout(STOP_POLL_INTERVAL) {
+                    Err(RecvTimeoutError::Timeout) => continue,
+                    other => other.ok(),
+                }
+            } else {
+                self.receiver.recv().ok()
+            };
+
+            if let Some(Some(v)) = next {
                 self.stats.incr_drained();
                 (self.task)(v);
             } else {
